@@ -602,7 +602,8 @@ type modelOpts struct {
 	Rich        bool // raise attribute probabilities
 }
 
-var hostileNames = []string{"build", "ulimits", "a.b", "x-y", "networks", "default", "volumes", "services"}
+// names a user may choose that collide with attribute names, contain a dot or look like an extension
+var hostileNames = []string{"build", "ulimits", "a.b", "x-y", "networks", "default", "volumes", "services", "labels", "environment", "args", "depends_on", "secrets"}
 
 // genModel draws a valid, referentially consistent model in canonical spelling.
 func genModel(t *rapid.T, o modelOpts) map[string]any {
@@ -622,10 +623,21 @@ func genModel(t *rapid.T, o modelOpts) map[string]any {
 		p := rapid.Permutation(pool).Draw(t, label+"perm")
 		return p[:n]
 	}
-	g.nets = resNames("nets", []string{"front", "back", "mesh", "default"})
-	g.vols = resNames("vols", []string{"dbdata", "cachevol", "logs"})
-	g.secs = resNames("secs", []string{"token", "cert", "apikey"})
-	g.cfgs = resNames("cfgs", []string{"appconf", "nginxconf", "motd"})
+	netPool, volPool := []string{"front", "back", "mesh", "default"}, []string{"dbdata", "cachevol", "logs"}
+	if o.Hostile {
+		netPool = append(netPool, "labels", "aliases") // (not `x-...`: a service cannot refer to such a network, its key is taken for an extension)
+		volPool = append(volPool, "labels", "volume")
+	}
+	secPool, cfgPool := []string{"token", "cert", "apikey"}, []string{"appconf", "nginxconf", "motd"}
+	if o.Hostile {
+		// the kinds are separate name spaces: one key may name a resource of each (and a service)
+		netPool, volPool = append(netPool, "web"), append(volPool, "web", "front", "token")
+		secPool, cfgPool = append(secPool, "dbdata", "appconf"), append(cfgPool, "token", "front")
+	}
+	g.nets = resNames("nets", netPool)
+	g.vols = resNames("vols", volPool)
+	g.secs = resNames("secs", secPool)
+	g.cfgs = resNames("cfgs", cfgPool)
 
 	doc := map[string]any{}
 	services := map[string]any{}
